@@ -14,7 +14,7 @@ THEOREMS = ["DpapiNg.C12.header_roundtrip", "DpapiNg.C12.secTrailer_roundtrip", 
             "DpapiNg.C12.response_roundtrip", "DpapiNg.C12.request_roundtrip", "DpapiNg.C12.fault_roundtrip", "DpapiNg.C12.bindAck_roundtrip",
             "DpapiNg.C12.bind_roundtrip", "DpapiNg.C12.context_rt", "DpapiNg.C12.result_rt", "DpapiNg.C12.command_rt", "DpapiNg.C12.vt_roundtrip", "DpapiNg.C12.bindNak_roundtrip",
             # model = interpretation of the layouts / field table regenerated from _bind.py, _verification.py, _epm.py (Gen.Layout*_eq, Gen.FieldsHeader2_eq)
-            "DpapiNg.Rpc.contextPack_eq_layout", "DpapiNg.Rpc.bindPack_eq_layout", "DpapiNg.Rpc.bindAckPack_eq_layout", "DpapiNg.Rpc.commandPack_eq_layout", "DpapiNg.Rpc.vtPack_eq_layout",
+            "DpapiNg.Rpc.contextPack_eq_layout", "DpapiNg.Rpc.bindPack_eq_layout", "DpapiNg.Rpc.bindAckPack_eq_layout", "DpapiNg.Rpc.dataRepPack_eq_layout", "DpapiNg.Rpc.commandPack_eq_layout", "DpapiNg.Rpc.vtPack_eq_layout",
             "DpapiNg.Rpc.bitmaskValue_eq_layout", "DpapiNg.Rpc.pcontextValue_eq_layout", "DpapiNg.Rpc.header2Value_eq_layout",
             "DpapiNg.Rpc.header2Unpack_eq_fields", "DpapiNg.Epm.rawPack_eq_layout",
             # what the models do in terms of the regenerated protocol / command numbers (Gen.ConstFloor*_eq, Gen.ConstCmd*_eq)
